@@ -424,6 +424,13 @@ impl Request {
         &mut self,
         raw_message: &[u8],
     ) -> Result<(ParseStatusInternal, usize), Error> {
+        // A carriage return at the very end of the input may turn out to be
+        // the first half of the line terminator, so it does not count
+        // towards the length of a request line that is not terminated yet.
+        let unterminated_length = match raw_message.last() {
+            Some(b'\r') => raw_message.len() - 1,
+            _ => raw_message.len(),
+        };
         match (find_crlf(raw_message), self.request_line_limit) {
             (Some(request_line_end), Some(limit))
                 if request_line_end > limit =>
@@ -447,7 +454,7 @@ impl Request {
                 self.target = target;
                 Ok((ParseStatusInternal::CompletePart, consumed))
             },
-            (None, Some(limit)) if raw_message.len() > limit => {
+            (None, Some(limit)) if unterminated_length > limit => {
                 Err(Error::RequestLineTooLong(raw_message[..limit].to_vec()))
             },
             (None, _) => Ok((ParseStatusInternal::Incomplete, 0)),
